@@ -454,6 +454,54 @@ func init() {
 				m.violate(violation{"C12", "boundary", fmt.Sprintf("%s with threshold %v: minimized counterexample is %s, the boundary is %v", k.name, th, got, th), p})
 			}
 		}
+		// minimize() itself on threshold conditions: the result is the threshold, wherever the
+		// starting value and the threshold lie relative to the powers of two
+		for i := 0; i < 3000*scale; i++ {
+			var u, th uint64
+			switch r.intn(6) {
+			case 0:
+				u, th = r.u64(), r.u64()
+			case 1:
+				u = r.u64() | 1<<63
+				th = uint64(1)<<63 - 1 - uint64(r.intn(1000003))
+			case 2:
+				j := uint(1 + r.intn(63))
+				u = uint64(1)<<j + r.u64()>>(64-j)
+				th = uint64(1)<<j - uint64(r.intn(4))
+			case 3:
+				u = r.ubound()
+				th = r.ubound()
+			case 4:
+				u = r.u64()
+				th = u>>1 + uint64(r.intn(5))
+			default:
+				u = ^uint64(0) - uint64(r.intn(3))
+				th = r.u64() >> uint(r.intn(3))
+			}
+			if th > u {
+				u, th = th, u
+			}
+			var got uint64
+			probes := 0
+			p := runTB(func() {
+				got = rapid.VerifMinimize(u, func(x uint64, _ string) bool {
+					probes++
+					if probes > 100000 {
+						panic("minimize: more than 100000 probes")
+					}
+					return x >= th
+				})
+			})
+			m.eval(fmt.Sprintf("minimize %d %d", u, th), u != th)
+			m.tag("minimize-threshold")
+			if p != nil || got != th {
+				what := fmt.Sprintf("minimize(%d, x >= %d) = %d, the boundary is %d", u, th, got, th)
+				if p != nil {
+					what = fmt.Sprintf("minimize(%d, x >= %d): %v", u, th, p)
+				}
+				m.violate(violation{"C12", "minimize", what, map[string]string{"u": fmt.Sprint(u), "th": fmt.Sprint(th)}})
+			}
+		}
 		// collections: at least k elements ⇒ exactly k, all zero for full-range integers
 		for i := 0; i < 15*scale; i++ {
 			n := r.intn(33)
@@ -507,6 +555,35 @@ func init() {
 			}
 		}
 	}
+	replayers["floatbits"] = func(v violation, tmp string) (bool, string) {
+		w, _ := strconv.Atoi(v.Params["w"])
+		e, _ := strconv.Atoi(v.Params["e"])
+		for seed := uint64(1); seed <= 3; seed++ {
+			if what := floatBinade(seed, w, e); what != "" {
+				return true, what
+			}
+		}
+		return false, "every significand bit of that binade takes both values, both ends are produced"
+	}
+	replayers["minimize"] = func(v violation, tmp string) (bool, string) {
+		u, _ := strconv.ParseUint(v.Params["u"], 10, 64)
+		th, _ := strconv.ParseUint(v.Params["th"], 10, 64)
+		var got uint64
+		probes := 0
+		p := runTB(func() {
+			got = rapid.VerifMinimize(u, func(x uint64, _ string) bool {
+				probes++
+				if probes > 100000 {
+					panic("minimize: more than 100000 probes")
+				}
+				return x >= th
+			})
+		})
+		if p != nil {
+			return true, fmt.Sprint(p)
+		}
+		return got != th, fmt.Sprintf("minimize(%d, x >= %d) = %d", u, th, got)
+	}
 	replayers["boundary"] = func(v violation, tmp string) (bool, string) {
 		run := runCheckTB(mustSX(v.Params["prog"]), parseFlags(v.Params), "replay", nil)
 		_, last := run.lastBuf()
@@ -519,6 +596,45 @@ func init() {
 		}
 		return true, "minimized to " + got
 	}
+}
+
+// floats of the binade [2^e, 2^(e+1)] drawn from the PRNG: every fractional significand bit must be
+// seen as 0 and as 1, and both ends of the range must be produced; "" if so
+func floatBinade(seed uint64, w int, e int) string {
+	S, bias := 52, 1023
+	if w == 32 {
+		S, bias = 23, 127
+	}
+	lo := uint64(e+bias) << uint(S)
+	hi := uint64(e+1+bias) << uint(S)
+	var or, and uint64 = 0, ^uint64(0)
+	sawLo, sawHi := false, false
+	s := rapid.VerifRandStream(seed, false)
+	const draws = 4000
+	for k := 0; k < draws; k++ {
+		var b uint64
+		if w == 64 {
+			sg, ee, si, sf := rapid.VerifGenFloatRange(s, math.Float64frombits(lo), math.Float64frombits(hi), 52)
+			b = math.Float64bits(rapid.VerifFloat64FromParts(sg, ee, si, sf))
+		} else {
+			sg, ee, si, sf := rapid.VerifGenFloatRange(s, float64(math.Float32frombits(uint32(lo))), float64(math.Float32frombits(uint32(hi))), 23)
+			b = uint64(math.Float32bits(rapid.VerifFloat32FromParts(sg, ee, si, sf)))
+		}
+		sawLo = sawLo || b == lo
+		sawHi = sawHi || b == hi
+		if b != hi {
+			or |= b
+			and &= b
+		}
+	}
+	mask := uint64(1)<<uint(S) - 1
+	missing1 := ^or & mask // bits never seen as 1
+	missing0 := and & mask // bits never seen as 0
+	if missing1 != 0 || missing0 != 0 || !sawLo || !sawHi {
+		return fmt.Sprintf("Float%dRange(2^%d, 2^%d): in %d draws significand bits %#x were never 1, bits %#x never 0, min seen=%v, max seen=%v",
+			w, e, e+1, draws, missing1, missing0, sawLo, sawHi)
+	}
+	return ""
 }
 
 // ---------------------------------------------------------------- C13: MakeFuzz
@@ -697,6 +813,22 @@ func saveChild(dir, name string, lines int) int {
 
 func init() {
 	monitors["C18"] = func(r *rng, scale int, m *monOut, tmp string) {
+		// floats: in every binade every fractional significand bit takes both values (so that no
+		// class of representable values is out of reach), and both ends of the range are produced
+		for _, w := range []int{64, 32} {
+			S := 52
+			if w == 32 {
+				S = 23
+			}
+			for e := -3; e <= S+2; e++ {
+				what := floatBinade(r.u64(), w, e)
+				m.eval(fmt.Sprintf("floatbits %d %d", w, e), true)
+				m.tag(fmt.Sprintf("float%d-binade", w))
+				if what != "" {
+					m.violate(violation{"C18", "floatbits", what, map[string]string{"w": fmt.Sprint(w), "e": fmt.Sprint(e)}})
+				}
+			}
+		}
 		// every value of 8-bit ranges is produced (PRNG sampling)
 		for i := 0; i < 6*scale; i++ {
 			lo, hi := int64(r.intn(256))-128, int64(r.intn(256))-128
